@@ -109,6 +109,12 @@ Definition flag (streams bit : Z) : bool := negb (Z.land streams bit =? 0).
 (* WEXITSTATUS *)
 Definition wexit (status : Z) : Z := (status / 256) mod 256.
 
+(* WIFEXITED: the child ended by exit() / return from main.  Only such a child HAS an exit code; of a child
+   ended by a signal the property ("join() returns its exit code") says no more than that it is joined.
+   [wexit] of a signal status is 0 in the code as it is - a model-level fact (join_returns_kernel_exit_code);
+   the oracle of the check prints a wildcard for the code when [join_code_specified] is false. *)
+Definition wifexited (status : Z) : bool := Z.land status 127 =? 0.
+
 Inductive lstate :=
 | LIdle
 | LRunning (pid : Z) (out err inn : bool).     (* which of the redirected streams are still open *)
@@ -192,6 +198,12 @@ Definition seen (o : pop) (r : pres) : pres :=
     | _ => RBool false
     end
   | _ => r
+  end.
+
+Definition join_code_specified (o : pop) : bool :=
+  match o with
+  | PJoin (Some status) => wifexited status
+  | _ => true
   end.
 
 Fixpoint seen_all (ops : list pop) (rs : list pres) : list pres :=
